@@ -389,7 +389,7 @@ func (w *world) step(code, a, b, d int64) int64 {
 }
 
 func run(sel int, in []int64) []int64 {
-	if sel < 1 || sel > 3 {
+	if sel < 1 || sel > 4 {
 		panic("unknown selector")
 	}
 	r := &rd{t: in}
@@ -433,15 +433,21 @@ func run(sel int, in []int64) []int64 {
 // the laws Y = not (race shape and full-strength law fails), which fail exactly on the
 // race; the companion laws X = (full-strength law or race shape) carry no signature.
 const (
-	sigRaceA = "C13-stale-lister-sync-overwrites-open"
-	sigRaceB = "C13-stale-lister-closed-with-podgroups"
-	sigRaceC = "C13-marked-child-not-reopened"
+	sigStuckChild = "C13-quiescent-marked-child-stuck"
+	sigOpenChild  = "C13-quiescent-open-child-under-closed-parent"
+	sigRaceA      = "C13-stale-lister-sync-overwrites-open"
+	sigRaceB      = "C13-stale-lister-closed-with-podgroups"
+	sigRaceC      = "C13-marked-child-not-reopened"
 )
 
 func laws(sel int, in, got []int64, law func(lsel int, lin []int64, sig string)) {
 	lin := append(append([]int64{}, in...), got...)
 	for l := 101; l <= 110; l++ {
 		law(l, lin, "")
+	}
+	if sel == 4 { // quiescent end states: the full-strength laws about caught-up states
+		law(141, lin, sigStuckChild)
+		law(142, lin, sigOpenChild)
 	}
 	if sel == 3 { // PodGroup events before the queue is listed: laws against the PodGroups that really exist
 		law(131, lin, "")
@@ -705,7 +711,127 @@ func genPGFirst(r *vh.Rng, i int) (in []int64, desc map[string]any) {
 	return in, map[string]any{"child_queue": child, "sync_before_listed": early, "created_in_history": created, "podgroups": k, "events": ne}
 }
 
+// genQuiescent: histories from CONSISTENT forests (every queue Open, some leaves closed by
+// hand) of open / close commands with arbitrary processing order and informer lag, ending
+// with catch-up rounds (every queue delivered, work queue drained).  Laws 141 / 142 look at
+// the caught-up states: no child left closed with closed-by-parent=true under an Open
+// parent; no child open under a closed / closing parent.
+func genQuiescent(r *vh.Rng, i int) (in []int64, desc map[string]any) {
+	type q struct{ id, parent, state, ann int64 }
+	var evs []int64
+	ne := 0
+	add := func(c, a, b, d int64) { evs = append(evs, c, a, b, d); ne++ }
+	var qs []q
+	shape := "random"
+	C := func(x, a int64) { add(1, x, a, 0) }
+	P := func(k int64) { add(11, k, 0, 0) }
+	L := func(x int64) { add(9, x, 0, 0) }
+	switch i % 6 {
+	case 0: // parent closed and re-opened at once, FIFO, the child's lister entry late
+		shape = "close-reopen-fifo"
+		qs = []q{{1, 0, 1, 0}, {2, 1, 1, 0}, {3, 2, 1, 0}}
+		C(2, 2)
+		C(2, 1)
+		P(0)
+		L(3)
+		L(2)
+		P(0)
+		L(2)
+		P(0)
+		P(0)
+		P(0)
+		P(0)
+	case 1: // child opened while the lister still shows its just-closed parent Open
+		shape = "open-child-under-just-closed-parent"
+		qs = []q{{1, 0, 1, 0}, {2, 1, 1, 0}, {3, 2, 2, 2}}
+		C(2, 2)
+		P(0)
+		C(3, 1)
+		P(0)
+	case 2: // parent closed while the lister still shows the just-opened child Closed
+		shape = "close-parent-over-just-opened-child"
+		qs = []q{{1, 0, 1, 0}, {2, 1, 1, 0}, {3, 2, 2, 2}}
+		C(3, 1)
+		P(0)
+		C(2, 2)
+		P(0)
+	default:
+		n := r.Range(2, 5)
+		qs = []q{{1, 0, 1, 0}}
+		depth := map[int64]int{1: 0}
+		for k := 2; k <= n; k++ {
+			p := qs[r.Intn(len(qs))].id
+			if depth[p] >= 3 {
+				p = 1
+			}
+			depth[int64(k)] = depth[p] + 1
+			qs = append(qs, q{int64(k), p, 1, vh.Pick(r, []int64{0, 0, 4})})
+		}
+		// some leaves closed by hand
+		for k := range qs {
+			leaf := true
+			for _, x := range qs {
+				if x.parent == qs[k].id {
+					leaf = false
+				}
+			}
+			if leaf && qs[k].id != 1 && r.Chance(1, 4) {
+				qs[k].state, qs[k].ann = 2, vh.Pick(r, []int64{0, 2})
+			}
+		}
+		fresh := r.Chance(1, 2)
+		if fresh {
+			shape = "random/lister-always-fresh"
+		} else {
+			shape = "random/lagged"
+		}
+		sync := func() {
+			if fresh {
+				for _, x := range qs {
+					L(x.id)
+				}
+			} else if r.Chance(1, 2) {
+				L(qs[r.Intn(len(qs))].id)
+			}
+		}
+		for k := r.Range(3, 10); k > 0; k-- {
+			x := qs[r.Range(1, len(qs)-1)].id
+			C(x, int64(r.Range(1, 2)))
+			sync()
+			for m := r.Range(0, 3); m > 0; m-- {
+				P(int64(vh.Pick(r, []int{0, 0, 0, 1, 2})))
+				sync()
+			}
+		}
+	}
+	for round := 0; round < 4; round++ { // catch up
+		for _, x := range qs {
+			L(x.id)
+		}
+		for d := 0; d < 6; d++ {
+			P(0)
+		}
+	}
+	for _, x := range qs {
+		L(x.id)
+	}
+	in = []int64{int64(vh.Pick(r, []int{-1, 3, 15}))}
+	for rep := 0; rep < 2; rep++ {
+		in = append(in, int64(len(qs)))
+		for _, x := range qs {
+			in = append(in, x.id, x.parent, x.state, x.ann)
+		}
+	}
+	in = append(in, 0, 0, 0, int64(ne))
+	in = append(in, evs...)
+	return in, map[string]any{"shape": shape, "queues": len(qs), "events": ne}
+}
+
 func gen(rng *vh.Rng, n int, emit func(id string, sel int, in []int64, kind string, nontrivial bool, desc any)) {
+	for i := 0; i < n/5+12; i++ {
+		in, desc := genQuiescent(rng.Fork(), i)
+		emit(fmt.Sprintf("quiescent-%d", i), 4, in, "quiescent-end-state", true, desc)
+	}
 	for i := 0; i < n/6+8; i++ {
 		in, desc := genPGFirst(rng.Fork(), i)
 		emit(fmt.Sprintf("pgfirst-%d", i), 3, in, "podgroups-before-queue-listed", true, desc)
